@@ -34,3 +34,104 @@ package bep44
 //@   ensures same-seq-same-value-ok: stored.Seq == incoming.Seq && samevalue(stored, incoming) ==> result == nil
 //@   ensures cas-mismatch-301: stored.Seq < incoming.Seq && incoming.Cas != 0 && incoming.Cas != stored.Seq ==> errcode(result) == 301
 //@   ensures higher-seq-ok: stored.Seq < incoming.Seq && (incoming.Cas == 0 || incoming.Cas == stored.Seq) ==> result == nil
+
+// ---- C12: validity of an item ----
+// signbuf(salt, seq, v) is the BEP 44 buffer to sign: "4:salt" len ":" salt (only if the salt is not empty),
+// "3:seqi" seq "e1:v" v.
+//@ spec uf signbuf(salt string, seq int64, bv string) string
+//@ spec def sigok(i *Item) bool = edverify(abytes(i.K), signbuf(bstr(i.Salt), i.Seq, enc(i.V)), abytes(i.Sig))
+//@ spec def valid(i *Item) bool = encok(i.V) && slen(enc(i.V)) <= 1000 && (mutable(i) ==> len(i.Salt) <= 64 && sigok(i))
+//@ spec def accepts(stored *Item, incoming *Item) bool = (incoming.Seq > stored.Seq && (incoming.Cas == 0 || incoming.Cas == stored.Seq)) || (incoming.Seq == stored.Seq && samevalue(stored, incoming))
+//@ spec def globals() bool = errcodes() && Empty32ByteArray == 0 && ErrItemNotFound != nil
+
+// bufferToSign builds the canonical buffer with fmt and bencode; its string arithmetic is not verified (assumed)
+//@ func dht/bep44.bufferToSign
+//@   trusted
+//@   ensures canonical: bstr(result) == signbuf(bstr(salt), seq, bstr(bv))
+
+//@ func dht/bep44.Verify
+//@   ensures verifies: result == edverify(bstr(k), signbuf(bstr(salt), seq, bstr(bv)), bstr(sig))
+
+//@ func dht/bep44.Check
+//@   requires nonnil: i != nil
+//@   requires globals: globals()
+//@   ensures accepted-iff-valid: (result == nil) == valid(i)
+//@   ensures too-big-205: encok(i.V) && slen(enc(i.V)) > 1000 ==> errcode(result) == 205
+//@   ensures salt-too-big-207: encok(i.V) && slen(enc(i.V)) <= 1000 && mutable(i) && len(i.Salt) > 64 ==> errcode(result) == 207
+//@   ensures bad-signature-206: encok(i.V) && slen(enc(i.V)) <= 1000 && mutable(i) && len(i.Salt) <= 64 && !sigok(i) ==> errcode(result) == 206
+
+// lemma: an accepted replacement never lowers the sequence number
+//@ lemma accepts-monotone: forall s, n *Item :: accepts(s, n) ==> n.Seq >= s.Seq
+
+// ---- the store ----
+// Contract every Store implementation is expected to meet (Memory below is verified against it; user stores are
+// assumed to): Get returns an item previously handed to Put, unmodified, hence one whose value encodes.
+//@ func (dht/bep44.Store).Get
+//@   trusted
+//@   ensures found: result1 == nil ==> result0 != nil && encok(result0.V)
+// Put and Del change only the store's own state, which the module never reads except through Get
+//@ func (dht/bep44.Store).Put
+//@   trusted
+//@ func (dht/bep44.Store).Del
+//@   trusted
+
+// target(i): SHA-1 of key || salt for a mutable item, of the encoded value for an immutable one (BEP 44)
+//@ spec def target(i *Item) [20]byte = mutable(i) ? sha1of(scat(abytes(i.K), bstr(i.Salt))) : sha1of(enc(i.V))
+//@ func (*dht/bep44.Item).Target
+//@   requires nonnil: i != nil
+//@   requires globals: Empty32ByteArray == 0
+//@   requires encodable: !mutable(i) ==> encok(i.V)
+//@   ensures bep44-target: result == old(target(i))
+
+// C13, interleavings: the look-up, the check and the write of a put (and the look-up and delete of an expiring
+// get) happen inside one critical section of the wrapper's own lock, so concurrent puts are serialised.
+// C12 / C13: Wrapper.Put hands an item to the store only if it is valid and, when an item is already stored
+// under its target, only if that item may be replaced by it; a rejected put does not touch the store.
+//@ func (*dht/bep44.Wrapper).Put
+//@   requires nonnil: w != nil && i != nil && w.s != nil
+//@   requires unlocked: !held(w.mu)
+//@   requires globals: globals()
+//@   modifies i.created
+//@   callsite (dht/bep44.Store).Put only-valid-and-newer: $0 == i && valid(i) && (erris(err, ErrItemNotFound) || (err == nil && accepts(is, i)))
+//@   callsite (dht/bep44.Store).Get looks-up-own-target: $0 == target(i)
+//@   callsite (dht/bep44.Store).Get get-under-lock: wheld(w.mu)
+//@   callsite (dht/bep44.Store).Put put-under-lock: wheld(w.mu)
+//@   ensures invalid-rejected: !valid(i) ==> result != nil && count("call:(dht/bep44.Store).Put") == 0
+//@   ensures too-big-205: encok(i.V) && slen(enc(i.V)) > 1000 ==> errcode(result) == 205
+//@   ensures salt-too-big-207: encok(i.V) && slen(enc(i.V)) <= 1000 && mutable(i) && len(i.Salt) > 64 ==> errcode(result) == 207
+//@   ensures bad-signature-206: encok(i.V) && slen(enc(i.V)) <= 1000 && mutable(i) && len(i.Salt) <= 64 && !sigok(i) ==> errcode(result) == 206
+//@   ensures one-put-at-most: count("call:(dht/bep44.Store).Put") <= 1
+//@   ensures never-deletes: count("call:(dht/bep44.Store).Del") == 0
+
+// C13: items older than the expiry are not served
+//@ func (*dht/bep44.Wrapper).Get
+//@   requires nonnil: w != nil && w.s != nil
+//@   requires unlocked: !held(w.mu)
+//@   requires globals: ErrItemNotFound != nil
+//@   callsite (dht/bep44.Store).Get get-under-lock: wheld(w.mu)
+//@   callsite (dht/bep44.Store).Del del-under-lock: wheld(w.mu)
+//@   ensures served-only-if-fresh: result0 != nil ==> tn(result0.created) + math(w.exp) > tn(lastnow())
+//@   ensures item-without-error: result0 != nil ==> result1 == nil
+//@   ensures error-without-item: result0 == nil ==> result1 != nil
+
+// Memory: a map from target to item
+//@ func (*dht/bep44.Memory).Put
+//@   requires nonnil: m != nil && i != nil && m.m != nil
+//@   requires unlocked: !held(m.mu)
+//@   requires globals: Empty32ByteArray == 0
+//@   requires encodable: !mutable(i) ==> encok(i.V)
+//@   modifies m.m
+//@   ensures filed-under-target: m.m[target(i)] == i
+//@   ensures others-untouched: forall t [20]byte :: t != target(i) ==> m.m[t] == old(m.m[t]) && (t in m.m) == old(t in m.m)
+//@   ensures ok: result == nil
+//@ func (*dht/bep44.Memory).Get
+//@   requires nonnil: m != nil
+//@   requires unlocked: !held(m.mu)
+//@   ensures found: (t in m.m) ==> result0 == m.m[t] && result1 == nil
+//@   ensures missing: !(t in m.m) ==> result0 == nil && result1 == ErrItemNotFound
+//@ func (*dht/bep44.Memory).Del
+//@   requires nonnil: m != nil
+//@   requires unlocked: !held(m.mu)
+//@   modifies m.m
+//@   ensures removed: !(t in m.m)
+//@   ensures others-untouched: forall u [20]byte :: u != t ==> m.m[u] == old(m.m[u]) && (u in m.m) == old(u in m.m)
